@@ -207,16 +207,18 @@ ARMS = ["ArmFlag", "ArmOptionNoValue", "ArmOptionValue", "ArmOptionBadValue", "A
 
 
 def model_selfcheck(chk, tier):
-    """The fast computation of the admissible set (only the policies a line touches) equals the
-    definition (all policies) on every list of a small configuration."""
+    """Inside the specification, on every list of a small configuration: the fast computation of the
+    admissible set (only the policies a line touches) equals the definition (all policies); a line the
+    definition accepts is a rendering of the assignment read off it (accepted language = rendered
+    language, the converse of the round trip)."""
     maxlen = 2 if tier == "quick" else 3
     cfg = os.path.join(chk.work, "CliGen_selfcheck.cfg")
     with open(cfg, "w") as f:
         f.write('CONSTANTS\n  Mode = "lists"\n  MaxLen = %d\n  ShapeSel = {%s}\n  Tier = "%s"\n  GridTier = "mini"\n  MaxPerm = 4\n' % (
             maxlen, ", ".join(map(str, range(1, NS + 1))), tier))
-        f.write("INIT Init\nNEXT Next\nINVARIANTS FastIsFull Progress\n")
+        f.write("INIT Init\nNEXT Next\nINVARIANTS FastIsFull InGrammar Progress\n")
     res = core.run_tlc("CliGen.tla", cfg, workers=8, timeout=1800, xmx="6g")
-    core.tlc_must_pass(res, "CliGen self-check (FastIsFull)")
+    core.tlc_must_pass(res, "CliGen self-check (FastIsFull, InGrammar)")
     chk.add_tlc(res)
     chk.extra["fast_admissible_equals_definition_on_lists"] = sum(
         sum(len(SH.alphabet(s)) ** k for k in range(maxlen + 1)) for s in SH.SHAPES)
